@@ -582,9 +582,16 @@ def run_pspace_indexing(ctx):
             ctx.ev('element-indexing')
             try:
                 a = x.asarray()
-                for ix in [0, slice(0, 2), (1, slice(None))]:
+                for ix in [0, slice(0, 2), (1, slice(None)), -1, (slice(None), slice(-2, None)), (-1, slice(None))]:
                     if not np.array_equal(np.asarray(x[ix]), a[ix]):
                         ctx.violation('ProductSpace[idx]', pn, 'asarray-does-not-commute')
+                # (slice, int): the selected entry of every part, kept as parts of size 1 - first, middle, last, written from either end
+                if not any(isinstance(s_, odl.ProductSpace) for s_ in p):
+                    n_in = p[0].size
+                    for j in (0, n_in - 1, -1, -n_in, 1 - n_in):
+                        got = np.asarray(x[:, j]).reshape(len(p))
+                        if not np.array_equal(got, a[:, j]):
+                            ctx.violation('ProductSpace[idx]', pn, 'asarray-does-not-commute', index='[:, %d]' % j, got=got, ref=a[:, j])
             except Exception as e:
                 ctx.violation('ProductSpace[idx]', pn, 'asarray-raises:' + type(e).__name__, message=str(e)[:200])
 
